@@ -636,16 +636,30 @@ def specConcLine (v desc progs : String) (raw : String) : String :=
     let rl := rs.splitOn "|"
     if ps.length ≠ rl.length then "FAIL result count differs from program count"
     else
-      let verdicts := (ps.zip rl).map fun (p, r) => specScriptLine v desc p r
+      -- a program marked `~` is a call that need not finish (unbounded or very distant demand,
+      -- running in the background of a controlled run): nothing is required of it
+      let verdicts := ((ps.zip rl).filter fun (p, _) => !p.startsWith "~").map fun (p, r) => specScriptLine v desc p r
       match verdicts.find? (· != "ok") with
       | some bad => bad ++ " [concurrent reader]"
       | none =>
         -- consult counter: never after the end, never concurrently
         match (cons.splitOn "/").map String.toNat? with
-        | [some _, some afterEnd, some reentry] =>
+        | [some calls, some afterEnd, some reentry] =>
           if afterEnd ≠ 0 then "FAIL the digit source was consulted again after it had signalled the end"
           else if reentry ≠ 0 then "FAIL the digit source was consulted concurrently"
-          else "ok"
+          else
+            -- bounded read-ahead, however many readers ask at the same time (C06): when every
+            -- program consists of At calls only, the highest position asked about is known
+            let ats : List (Option Int) := ps.flatMap fun p => (p.splitOn ";").map fun st =>
+              match st.splitOn ":" with
+              | ["at", "0", x] => x.toInt?
+              | _ => none
+            if ats.all Option.isSome && !ats.isEmpty then
+              let top : Int := ats.foldl (fun a x => max a (x.getD 0)) 0
+              if (calls : Int) > top + 1 + 1000 then
+                s!"FAIL {calls} positions consulted although the highest position asked about by any of the concurrent readers is {top} (bound {top}+1+1000)"
+              else "ok"
+            else "ok"
         | _ => if cons == "na" then "ok" else s!"FAIL unparsable consult counter {cons}"
   | _ => s!"FAIL unparsable result {raw}"
 
@@ -661,6 +675,8 @@ def specSchedLine (v desc progs : String) (raw : String) (traced : Bool) : Strin
     if status == "na" || status.startsWith "err:" then "ok"
     else if status.startsWith "deadlock" then
       s!"FAIL under this schedule the readers {status} can never run again (lost wake-up / deadlock); results so far {rs}"
+    else if status.startsWith "starved" then
+      s!"FAIL {status}: these calls never returned although their answers are determinable — another call with an unbounded (or very distant) demand was in progress and the producer kept publishing blocks; results so far {rs}"
     else if status != "ok" then s!"FAIL controlled run ended with status {status}"
     else specConcLine v desc progs (rs ++ " ## " ++ cons)
   | _ => s!"FAIL unparsable result {raw}"
